@@ -215,6 +215,19 @@ def stage(state, name, program, st):
         out["scala_after_reset"] = utils.translate_program(tr, program)
     except Exception as e:  # noqa: BLE001
         out["scala_visit_error"] = type(e).__name__ + ": " + str(e)[:200]
+    # Groovy: the same from the hand-set states of the registry (own block; attributes by value as `canon` gives them)
+        from src.translators.groovy import GroovyTranslator
+        gm = MODELS.get("groovy")
+        for init in (gm or {}).get("visit_states", []):
+            tr = GroovyTranslator("src.pkg", {})
+            for a, v in init.items():
+                setattr(tr, a, tuple(v) if a == "_namespace" else v)
+            stt = {a: canon(getattr(tr, a, "<missing>")) for a in gm["state_attrs"]}
+            stt["stack_len"] = len(tr._nodes_stack)
+            vis.append({"init": init, "texts": list(tr._children_res), "state": stt})
+        if gm:
+            out["groovy_visit"] = vis
+        out["groovy_visit_error"] = type(e).__name__ + ": " + str(e)[:200]
     # tu.is_sam on every class declaration (theorem is_sam_never; the translator asks exactly this)
     try:
         from src.ir import type_utils as tu, ast as _ast
